@@ -2,6 +2,7 @@
 import z3
 from z3 import And, If, Implies, Real, RealVal
 
+from ..contracts.eg_predict import Predict as EGPredict
 from ..contracts.pmf import PmfPredict
 from ..pyvc import solve, verify
 
@@ -28,4 +29,7 @@ def items(rep):
     _lemmas(rep)
     return [(PmfPredict(), [("operations_swapped", verify.replace_expr("interpolation.operation1(base_predictions_vector)", "interpolation.operation0(base_predictions_vector)")),
                             ("p_ignore_complement_dropped", verify.replace_expr("(1 - interpolation.p_ignore) * interpolated_predictions", "interpolation.p_ignore * interpolated_predictions")),
-                            ("negative_column_not_complement", verify.replace_expr("1.0 - positive_probs", "positive_probs"))])]
+                            ("negative_column_not_complement", verify.replace_expr("1.0 - positive_probs", "positive_probs"))]),
+            (EGPredict(True), [("strict_comparison_with_the_draw", verify.flip_strictness(0))]),
+            (EGPredict(False), [("weights_paired_by_position", verify.replace_expr("self.weights_[pred.columns]", "self.weights_")),
+                                ("every_row_drawn_from_row_zero", verify.replace_expr("pred.iloc[i, :]", "pred.iloc[0, :]"))])]
